@@ -10,6 +10,7 @@ package main
 
 import (
 	"context"
+	"crypto/sha256"
 	"errors"
 	"fmt"
 	"io"
@@ -352,6 +353,52 @@ func pickRace(plain, race int) int {
 
 var l2keys = []string{"/tables/sys/idseq", "/tables/a*b/lease", "queue/q\u2028<&>\"/1"}
 
+// digest is how values appear in the recorded history: short ones verbatim, long ones by
+// length and SHA-256 (keeps witnesses small and the porcupine states cheap to compare).
+func digest(v string) string {
+	if len(v) <= 120 {
+		return v
+	}
+	h := sha256.Sum256([]byte(v))
+	return fmt.Sprintf("#%d bytes sha256 %x", len(v), h[:12])
+}
+
+// perform executes one recorded operation at the client boundary: call and return numbers
+// come from the one atomic counter; val is the full value of a set (h.Val holds its digest).
+func perform(rs *kv.RaftStore, h *hop, val string, ctr *atomic.Int64) (kv.Pair, bool) {
+	h.Val = digest(val)
+	h.Call = ctr.Add(1)
+	var err error
+	var p kv.Pair
+	switch h.Kind {
+	case "get":
+		p, err = rs.Get(h.Key)
+	case "set":
+		p, err = rs.Set(h.Key, val, h.Ver)
+	case "delete":
+		err = rs.Delete(h.Key, h.Ver)
+	}
+	ret := ctr.Add(1)
+	switch {
+	case err == nil:
+		h.Out, h.Ret = "ok", ret
+		if h.Kind != "delete" {
+			h.OutKey, h.OutVal, h.OutVer = p.Key, digest(p.Value), p.Ver
+		}
+	case errors.Is(err, kv.ErrVersionMismatch):
+		h.Out, h.Ret = "mismatch", ret
+		if h.Kind == "set" {
+			h.OutKey, h.OutVal, h.OutVer = p.Key, digest(p.Value), p.Ver
+		}
+	case errors.Is(err, kv.ErrNotExist) && h.Kind == "get":
+		h.Out, h.Ret = "notfound", ret
+	default:
+		h.Out, h.Err = "unknown", err.Error() // stays open
+		return p, false
+	}
+	return p, true
+}
+
 // client runs one client's share of a workload phase.
 func client(rs *kv.RaftStore, id int, seed int64, n int, ctr *atomic.Int64, known map[string]kv.Pair, seen map[string][]uint64) []hop {
 	rng := rand.New(rand.NewSource(seed))
@@ -362,12 +409,23 @@ func client(rs *kv.RaftStore, id int, seed int64, n int, ctr *atomic.Int64, know
 	}
 	for i := 0; i < n; i++ {
 		h := hop{Client: id, Key: l2keys[rng.Intn(len(l2keys))]}
+		val := ""
 		switch x := rng.Intn(100); {
 		case x < 25:
 			h.Kind = "get"
 		case x < 75:
 			h.Kind = "set"
-			h.Val = fmt.Sprintf("c%d-%d-%d\u2028\"<&>", id, seed%1000, i)
+			val = fmt.Sprintf("c%d-%d-%d\u2028\"<&>", id, seed%1000, i)
+			if rng.Intn(100) < 3 { // a handful of boundary-sized values per client
+				size := boundarySizes[rng.Intn(len(boundarySizes))]
+				switch rng.Intn(6) {
+				case 0:
+					size = 65536 - rng.Intn(160)
+				case 1:
+					size = 128 << 10
+				}
+				val = sizedValue(rng, size, val)
+			}
 		default:
 			h.Kind = "delete"
 		}
@@ -390,38 +448,13 @@ func client(rs *kv.RaftStore, id int, seed int64, n int, ctr *atomic.Int64, know
 				h.Ver, h.How = uint64(rng.Intn(int(cur)+50)), "random"
 			}
 		}
-		h.Call = ctr.Add(1)
-		var err error
-		var p kv.Pair
-		switch h.Kind {
-		case "get":
-			p, err = rs.Get(h.Key)
-		case "set":
-			p, err = rs.Set(h.Key, h.Val, h.Ver)
-		case "delete":
-			err = rs.Delete(h.Key, h.Ver)
-		}
-		ret := ctr.Add(1)
+		p, definite := perform(rs, &h, val, ctr)
 		switch {
-		case err == nil:
-			h.Out, h.Ret = "ok", ret
-			if h.Kind != "delete" {
-				h.OutKey, h.OutVal, h.OutVer = p.Key, p.Value, p.Ver
-				note(p)
-			} else {
-				delete(known, h.Key)
-			}
-		case errors.Is(err, kv.ErrVersionMismatch):
-			h.Out, h.Ret = "mismatch", ret
-			if h.Kind == "set" {
-				h.OutKey, h.OutVal, h.OutVer = p.Key, p.Value, p.Ver
-				note(p)
-			}
-		case errors.Is(err, kv.ErrNotExist) && h.Kind == "get":
-			h.Out, h.Ret = "notfound", ret
+		case !definite:
+		case h.Out == "ok" && h.Kind == "delete", h.Out == "notfound":
 			delete(known, h.Key)
-		default:
-			h.Out, h.Err = "unknown", err.Error() // stays open
+		case h.Kind == "get" && h.Out == "ok", h.Kind == "set":
+			note(kv.Pair{Key: p.Key, Value: h.OutVal, Ver: p.Ver})
 		}
 		out = append(out, h)
 	}
@@ -447,8 +480,39 @@ func runStore(r *ev.Run, id caseID) ([]hop, bool) {
 	for c := range known {
 		known[c], seen[c] = map[string]kv.Pair{}, map[string][]uint64{}
 	}
+	// the coordinator is a ninth, sequential client; its operations are part of the history
+	coord := func(kind, key, val string, ver uint64) hop {
+		h := hop{Client: nClients, Kind: kind, Key: key, Ver: ver, How: "coordinator"}
+		perform(rs, &h, val, &ctr)
+		all = append(all, h)
+		return h
+	}
 	for phase := 0; phase < 2; phase++ {
 		if phase == 1 {
+			// Before the restart (no client is running): store a boundary-sized value with the
+			// key's current version, have dragonboat snapshot the state machine, leave a short log
+			// tail behind the snapshot. The restart then restores the snapshot and replays the tail.
+			crng := rand.New(rand.NewSource(id.Seed*977 + 5))
+			size := []int{65536 - crng.Intn(160), boundarySizes[5+crng.Intn(4)], 128 << 10, 1 << 20}[crng.Intn(4)]
+			k := l2keys[crng.Intn(len(l2keys))]
+			cur := coord("get", k, "", 0)
+			if st := coord("set", k, sizedValue(crng, size, "blob-"), cur.OutVer); st.Out == "ok" {
+				r.Count("raftstore_sized_value_before_restart:"+sizeBucket(size), 1)
+			}
+			for try := 0; try < 20; try++ {
+				ctx, cancel := context.WithTimeout(context.Background(), 30*time.Second)
+				_, err := rs.NodeHost.SyncRequestSnapshot(ctx, metaShard, dragonboat.DefaultSnapshotOption)
+				cancel()
+				if err == nil {
+					r.Count("raftstore_requested_snapshots", 1)
+					break
+				}
+				time.Sleep(10 * time.Millisecond) // e.g. an automatic snapshot is still being saved
+			}
+			k2 := l2keys[(crng.Intn(len(l2keys)-1)+1+indexOf(l2keys, k))%len(l2keys)]
+			cur2 := coord("get", k2, "", 0)
+			coord("set", k2, "tail-"+fmt.Sprint(id.Seed), cur2.OutVer)
+
 			// restart the replica: state comes back from the last snapshot plus log replay
 			before := se.unloaded.Load()
 			if err := rs.NodeHost.StopShard(metaShard); err != nil {
@@ -478,6 +542,9 @@ func runStore(r *ev.Run, id caseID) ([]hop, bool) {
 				return all, false
 			}
 			r.Count("raftstore_replica_restarts", 1)
+			for _, key := range l2keys { // what the restarted replica holds
+				coord("get", key, "", 0)
+			}
 		}
 		res := make([][]hop, nClients)
 		var wg sync.WaitGroup
@@ -517,4 +584,13 @@ func runStoreCase(r *ev.Run, id caseID) {
 	if len(all) > 6 {
 		r.Sample(map[string]any{"layer": 2, "case_seed": id.Seed, "operations": len(all), "first_operations": all[:6]})
 	}
+}
+
+func indexOf(ss []string, s string) int {
+	for i, e := range ss {
+		if e == s {
+			return i
+		}
+	}
+	return 0
 }
